@@ -25,7 +25,7 @@ EXPLANATION = (
     "top 5 bits of salt*key, key = low 32 bits, block index = ((h>>32)*n)>>32) and XXH64's "
     "prime/rotation/shift constants (call-site-expanded (operator, constant) fingerprint); (7) no byte "
     "assembly of type int in the hash can carry bit 31 into the 64-bit lane (sign extension on widening). "
-    "Decides these clauses, not hash/value equality for every input.")
+    "(8) a typed insert/check hashes its value parameter as given: no store to the parameter before the hash (a 'canonicalised' -0.0 makes insert and check disagree and the bits stop being those of the plain-encoded value). Decides these clauses, not hash/value equality for every input.")
 
 BF = "src/metadata/bloom_filter.c"
 XX = "src/util/xxhash.c"
